@@ -469,6 +469,26 @@ func coWriteRule(c *Ctx, rule, role string, tf *types.Var, req coReq, reqOK bool
 			if len(fs) == 0 || elem || fs[len(fs)-1] != tf || isFreshRoot(root) {
 				return
 			}
+			// a helper of constructors: the object is a parameter that every
+			// caller has just allocated
+			if prm, ok := root.(*ssa.Parameter); ok && !fn.Object().Exported() {
+				idx := -1
+				for k, q := range fn.Params {
+					if q == prm {
+						idx = k
+					}
+				}
+				cs := callersOf(p, fn)
+				allFresh := len(cs) > 0 && idx >= 0
+				for _, call := range cs {
+					if args := call.Common().Args; idx >= len(args) || !isFreshRoot(args[idx]) {
+						allFresh = false
+					}
+				}
+				if allFresh {
+					return
+				}
+			}
 			for _, o := range Origins(st.Val, OriginOpts{ThroughBinOp: true}) {
 				if o.Kind == OrgField && o.Field == tf {
 					return // a step relative to the previous position
